@@ -19,7 +19,8 @@ for d in sorted(glob.glob('/verif/seeded/*/')):
     rows.append('| %s | %s | %s | %s | %s |' % (name, files, summ, mechs, 'yes' if first_missed else 'no'))
 tab = ['| id | file | change | caught by (violation mechanism reported) | missed by the first version of the check |', '|---|---|---|---|---|'] + rows
 tab.append('')
-tab.append('%d seeded changes stored; %d of them were missed by the check as it stood when the change arrived and are caught after the strengthening described below.' % (len(rows), missed))
+neutral = sum(1 for d in glob.glob('/verif/seeded/*/meta.json') if str(json.load(open(d)).get('status', '')).startswith('neutralised'))
+tab.append('%d seeded changes stored; %d of them were missed by the check as it stood when the change arrived and are caught after the strengthening described below; %d have since been made harmless by a repair of the code they touch (marked "neutralised": their own demonstration reports that the property holds with the patch applied) and are skipped by the regression run.' % (len(rows), missed, neutral))
 s = open('/verif/DESIGN.md').read()
 a, b = '<!-- SEEDED-TABLE-BEGIN -->', '<!-- SEEDED-TABLE-END -->'
 assert a in s and b in s
